@@ -12,6 +12,7 @@ Extraction "../ocaml/model.ml"
   keccak_bytes
   Strobe.strobe_digest Strobe.strobe_hash
   Fp.p Fp.val Fp.mkfp Fp.fadd Fp.fsub Fp.fmul Fp.fopp Fp.fdouble Fp.fsquare Fp.finv Fp.fpow Fp.fsqrt Fp.feqb
+  Fp.f_num_bits Fp.f_capacity Fp.f_S Fp.f_two_inv Fp.f_gen Fp.f_rou Fp.f_rou_inv Fp.f_delta
   Fp.to_repr Fp.from_repr Fp.fp_of_limbs Fp.powmod
   Shamir.share_to_bytes Shamir.share_from_bytes Shamir.recover
   Adss.sharing_of Adss.load_bytes Adss.store_bytes Adss.ashare_to_bytes Adss.ashare_from_bytes
